@@ -63,6 +63,13 @@ var fnTargets = []string{
 // targets translated in string mode (Gen/FnS.lean): strings, string tables, Sprintf and range over tables are inside the subset
 var fnTargetsS = []string{}
 
+// string-mode functions kept although they have atoms / dropped statements (their listings are pinned like in int mode)
+var fnTargetsSKeep = []string{
+	"calendar.Lunar.GetFestivals", "calendar.Solar.GetFestivals",
+	"calendar.Lunar.GetHou", "calendar.Lunar.GetWuHou", "calendar.Lunar.GetJie", "calendar.Lunar.GetQi",
+	"calendar.Tao.IsDaySanHui", "calendar.Tao.IsDaySanYuan", "calendar.Tao.IsDayWuLa", "calendar.Tao.IsDayBaJie",
+}
+
 // the Go string / fmt semantics used by string mode (part of the translator's trusted base)
 const strHeader = `/-- %d / %v of an int -/
 def fmtD (n : Int) : String := toString n
@@ -380,6 +387,7 @@ type tctx struct {
 	mutParam types.Object
 	inLoop   int
 	listElem map[types.Object]string // list iteration variable -> Lean name of the current element
+	alias    map[types.Object]string // Go variables given a fresh Lean name (if-init scopes that would shadow a mutable variable)
 	brk      []string                // per enclosing loop: the "finished" flag a Go `break` must set ("" for counted loops)
 }
 
@@ -546,6 +554,9 @@ func (t *tctx) exprIn(e ast.Expr) (ex, bool) {
 			return ex{text: x.Name}, true
 		}
 		o := t.info().Uses[x]
+		if a, ok := t.alias[o]; ok {
+			return ex{text: a}, true
+		}
 		if _, ok := t.locals[o]; ok {
 			return ex{text: lid(x.Name)}, true
 		}
@@ -2018,13 +2029,39 @@ func (t *tctx) ifMapLookup(x *ast.IfStmt) ([]string, bool) {
 	out := append([]string{}, key.pre...)
 	kv := t.fresh("t")
 	out = append(out, fmt.Sprintf("let %s : String := %s", kv, key.text))
+	if asg := assignedIn(x, t.info()); asg[t.info().Defs[okid]] && false {
+		return nil, false
+	}
+	for _, st := range append([]ast.Stmt{x.Body}, x.Else) {
+		if st == nil {
+			continue
+		}
+		bad := false
+		ast.Inspect(st, func(n ast.Node) bool {
+			if as, ok := n.(*ast.AssignStmt); ok && as.Tok != token.DEFINE {
+				for _, l := range as.Lhs {
+					if id, ok := l.(*ast.Ident); ok && (t.info().Uses[id] == t.info().Defs[vid] || t.info().Uses[id] == t.info().Defs[okid]) {
+						bad = true
+					}
+				}
+			}
+			return true
+		})
+		if bad {
+			return nil, false // the if-init variables are assigned in the branches: not supported
+		}
+	}
+	okName := t.fresh("ok")
 	if vid.Name != "_" {
+		vName := t.fresh("v")
 		t.locals[t.info().Defs[vid]] = vk
-		out = append(out, fmt.Sprintf("let mut %s : %s := %s %s %s", lid(vid.Name), vk.lean(), look, name, kv))
+		t.alias[t.info().Defs[vid]] = vName
+		out = append(out, fmt.Sprintf("let %s : %s := %s %s %s", vName, vk.lean(), look, name, kv))
 	}
 	t.locals[t.info().Defs[okid]] = kind{k: "bool"}
-	out = append(out, fmt.Sprintf("let mut %s : Bool := mhas %s %s", lid(okid.Name), name, kv))
-	out = append(out, "if "+lid(okid.Name)+" then")
+	t.alias[t.info().Defs[okid]] = okName
+	out = append(out, fmt.Sprintf("let %s : Bool := mhas %s %s", okName, name, kv))
+	out = append(out, "if "+okName+" then")
 	out = append(out, ind(t.block(x.Body.List))...)
 	if x.Else != nil {
 		out = append(out, "else")
@@ -2172,7 +2209,7 @@ func (t *tctx) forStmt(x *ast.ForStmt) []string {
 
 func (ft *fnTrans) translate(d *fnDecl) *fnOut {
 	o := &fnOut{}
-	t := &tctx{ft: ft, fd: d, out: o, locals: map[types.Object]kind{}, listElem: map[types.Object]string{}}
+	t := &tctx{ft: ft, fd: d, out: o, locals: map[types.Object]kind{}, listElem: map[types.Object]string{}, alias: map[types.Object]string{}}
 	sig := d.obj.Type().(*types.Signature)
 	var params []string
 	addParam := func(v *types.Var, name string) bool {
@@ -2474,6 +2511,10 @@ func runFn(outDir, file, ns string, fnTargets []string, strMode bool, cs map[str
 	}
 	if !auto {
 		for k := range want {
+			ft.target[k] = true
+		}
+	} else {
+		for _, k := range fnTargetsSKeep {
 			ft.target[k] = true
 		}
 	}
